@@ -803,6 +803,6 @@ pub fn verif_validate_argument_type(
     variable_name: &str,
     variable_type: &Type,
     argument_value: &FieldValue,
-) -> bool {
-    validate_argument_type(variable_name, variable_type, argument_value).is_ok()
+) -> Result<(), QueryArgumentsError> {
+    validate_argument_type(variable_name, variable_type, argument_value)
 }
